@@ -223,12 +223,15 @@ namespace
   // prepare step): any cache or shared scratch keyed with a tolerance makes the second answer of a pair wrong.
   std::string engine_string(World &w) { std::stringstream ss; ss << w.get_random_number_engine(); return ss.str(); }
   const int NPAIRS = 4;
-  const int NOPS = 13;   // 0..7 pair queries (in,out)x4, 8: 2-D batched, 9: grains entry point, 10: construct W2, 11: query W2, 12: destroy W2
+  const int NOPS = 15;   // 0..7 pair queries (in,out)x4, 8: 2-D batched, 9: grains entry point, 10: construct W2, 11: query W2, 12: destroy W2,
+                         // 13: temperatures inside the second slab (mass conserving, spline of 9 points), 14: temperatures across the first slab (spline of 4 points)
   const char *PAIRN[NPAIRS] = {"continental-plate-west-edge", "mantle-layer-bottom", "slab-top-surface", "plume-rim"};
   std::string opname(int op)
   {
     if (op < 8) return std::string("W1.properties3d[T,c0,tag,vel] at ") + PAIRN[op/2] + (op % 2 ? "/outer-neighbour" : "/inner-neighbour");
-    const char *n[] = {"W1.properties2d[vel,g12,T]", "W1.grains3d(0,3)", "construct W2 (spherical file across the dateline)", "W2.properties3d[T,c1,tag] at an aliased longitude", "destroy W2"};
+    const char *n[] = {"W1.properties2d[vel,g12,T]", "W1.grains3d(0,3)", "construct W2 (spherical file across the dateline)", "W2.properties3d[T,c1,tag] at an aliased longitude", "destroy W2",
+                       "W1.temperature at 8 points in the second slab (mass conserving model with a 9-point spline)", "W1.temperature at 16 points across the first slab (mass conserving model with a 4-point spline)"
+                      };
     return n[op-8];
   }
   const Request PAIR_REQ = {{{1,0,0}},{{2,0,0}},{{4,0,0}},{{5,0,0}}};
@@ -240,7 +243,8 @@ namespace
     std::vector<std::vector<double>> fresh;   // answers of ops 0..9 and 11 on history-free worlds (index = op)
     std::string engine;
   };
-  std::string text_w1() { return worlds::rich(opt_for(0)); }
+  // W1: both slabs use the mass conserving model with splines of different sizes (a model that keeps a workspace between calls must not let one slab's samples leak into the other's)
+  std::string text_w1() { worlds::Opt o = opt_for(0); o.slab_model = 2; o.second_slab = true; return worlds::rich(o); }
   std::string text_w2() { worlds::Opt o; o.spherical = true; o.variant = 1; o.shift = 178; return worlds::rich(o); }
   P3 point_w2() { return query_point(true, 181.5, 0.5, 8e4); }
 
@@ -259,6 +263,18 @@ namespace
     if (op < 8) { const int k = op/2; return op % 2 ? w1.properties(R.pout[k], R.dout[k], PAIR_REQ) : w1.properties(R.pin[k], R.din[k], PAIR_REQ); }
     if (op == 8) return w1.properties(L2.p2, L2.d2, {ATOMS[7], ATOMS[5], ATOMS[0]});
     if (op == 9) { std::vector<double> f(30, 0.0); w1.grains(L2.pg, L2.dg, 0, 3).unroll_into(f, 0); return f; }
+    if (op == 13)
+      {
+        std::vector<double> t;
+        for (double dx : {0.3e5, 0.6e5, 0.9e5, 1.2e5}) for (double d : {0.7e5, 1.3e5}) t.push_back(w1.temperature(query_point(false, -3.45e5 - dx, 3.5e5, d), d));
+        return t;
+      }
+    if (op == 14)
+      {
+        std::vector<double> t;
+        for (int k = 0; k < 16; ++k) { const double d = 4e4 + 1.5e4*k; t.push_back(w1.temperature(query_point(false, 2.0e5, -1.2e5, d), d)); }
+        return t;
+      }
     return w2->properties(point_w2(), 8e4, W2_REQ);
   }
 
@@ -377,7 +393,7 @@ namespace
     bool alive = false;
     for (int op : ops)
       {
-        if ((op == 10 && alive) || (op >= 11 && !alive)) { ctx.count(c_dis); return; }
+        if ((op == 10 && alive) || ((op == 11 || op == 12) && !alive)) { ctx.count(c_dis); return; }
         if (op == 10) alive = true;
         if (op == 12) alive = false;
       }
@@ -417,7 +433,7 @@ namespace
       }
     // canonical state reached by this history: all probe answers (each from ... the same objects), engine, W2 alive
     uint64_t h = 1469598103934665603ull;
-    for (int op = 0; op < 10; ++op)
+    for (int op : {0, 1, 2, 3, 4, 5, 6, 7, 8, 9, 14, 13})
       {
         const std::vector<double> got = do_op(*w1, nullptr, op, R, L2);
         h = fnv(got, h);
@@ -440,9 +456,9 @@ int main(int argc, char **argv)
   spec.property = "C01";
   spec.level = "model_checking";
   spec.rule = "batching suites: every request list of length <= L over an 8-atom alphabet x 5 rich worlds x all probe points (lattice, depths just above/at/below the surface, lines through the fault and the slab), each block compared bit-for-bit with the stand-alone "
-              "query through the same interface (non-trivial: list length >= 2 and at least one point inside a feature); history suites: every operation sequence of length <= D over 13 "
-              "operations (queries at 4 pairs of adjacent doubles straddling feature boundaries, 2-D batched query, grains entry point, construct/query/destroy a second, spherical world) "
-              "each replayed in a freshly exec'd process, canonical state = bit pattern of 10 probe answers + serialised RNG engine + W2 alive (non-trivial: every enabled sequence; distinct by construction)";
+              "query through the same interface (non-trivial: list length >= 2 and at least one point inside a feature); history suites: every operation sequence of length <= D over 15 "
+              "operations (queries at 4 pairs of adjacent doubles straddling feature boundaries, 2-D batched query, grains entry point, construct/query/destroy a second, spherical world, temperature profiles through two slabs whose thermal models use splines of different sizes) "
+              "each replayed in a freshly exec'd process, canonical state = bit pattern of 12 probe answers + serialised RNG engine + W2 alive (non-trivial: every enabled sequence; distinct by construction)";
   spec.assumptions = {"request alphabet: temperature, composition 0/1, grains (0,1) (0,3) (1,2), tag, velocity", "worlds without random models (random models are C15)",
                       "every explored trace is an implementation trace (no separate model)"
                      };
@@ -475,8 +491,8 @@ int main(int argc, char **argv)
         h.n = 1; for (unsigned k = 0; k < len; ++k) h.n *= NOPS;
         h.run = [len](uint64_t i, Ctx &c) { run_history(len, i, c); };
         h.fresh_process = true;
-        h.bound = "all operation sequences of length " + std::to_string(len) + " over 13 operations (4 boundary-straddling pairs of adjacent doubles, 2-D batched query, grains entry point, "
-                  "construct/query/destroy a spherical world across the dateline); each sequence in a freshly exec'd process; disabled sequences skipped and counted";
+        h.bound = "all operation sequences of length " + std::to_string(len) + " over 15 operations (4 boundary-straddling pairs of adjacent doubles, 2-D batched query, grains entry point, "
+                  "construct/query/destroy a spherical world across the dateline, temperature profiles through two slabs with splines of different sizes); each sequence in a freshly exec'd process; disabled sequences skipped and counted";
         s.push_back(h);
       }
     return s;
